@@ -12,6 +12,7 @@ import ast
 
 from sa import mutate as M
 from sa import pattern as PT
+from sa import values as VX
 from sa.consts import UNKNOWN
 from sa.ctx import Ctx
 from sa.loader import AnalysisError, call_name, norm, own_nodes, parent
@@ -35,10 +36,14 @@ def rule_checksum_gate(ctx: Ctx, rep: Report) -> None:
     ok = bool(hits) and g.must_pass([h.id for h in hits]) is None
     rep.ob(rule, "bip39.entropy_from_mnemonic", ok, e.where(), "trailing bits != recomputed checksum refused on every path" if ok else "entropy is returned without the checksum comparison")
     txt = PT.text(e)
-    rep.ob(rule, "bip39:split", "bits = int(len(cs_entropy) * 32 / 33)" in txt and "_entropy_checksum(cs_entropy[:bits])" in txt, e.where(), "ENT = 32/33 of the bits; checksum recomputed from the entropy part")
+    vx = VX.of(e)
+    rep.ob(rule, "bip39:split", vx.anywhere("_entropy_checksum($$e[:int(len($$e) * 32 / 33)])") or vx.anywhere("_entropy_checksum($$e[:len($$e) * 32 // 33])") or vx.anywhere("_entropy_checksum($$e[:len($$e) // 33 * 32])"),
+           e.where(), "ENT = 32/33 of the bits; checksum recomputed from the entropy part")
     ec = ctx.func(f"{B39}._entropy_checksum")
     txt = PT.text(ec)
-    rep.ob(rule, "bip39:checksum_def", "sha256(bytes_entropy).digest()" in txt and "checksum_bits = len(bytes_entropy) // 4" in txt and "checksum.zfill(256)" in txt and "checksum[:checksum_bits]" in txt, ec.where(), "leftmost ENT/32 bits of sha256(entropy)")
+    vx = VX.of(ec)
+    bb: dict[str, str] = {}
+    rep.ob(rule, "bip39:checksum_def", vx.returns("$$c.zfill(256)[:len($$be) // 4]", bb) and "sha256(" in bb.get("$$c", "") and ".digest()" in bb["$$c"], ec.where(), "leftmost ENT/32 bits of sha256(entropy)")
     s = ctx.func(f"{B39}.seed_from_mnemonic")
     g = ctx.cfg(s)
     call = [c for c in own_nodes(s.node) if isinstance(c, ast.Call) and call_name(c) == "entropy_from_mnemonic"]
